@@ -112,6 +112,37 @@ CHECKS = {
               "loop stops early while budget remains is not part of the property."),
         technique="TLA+ spec (Iterative) model-checked with TLC + Apalache inductive invariant; replay of TLC-enumerated requests; trace validation by total monitor",
     ),
+    "C10": dict(
+        category="model_checking",
+        text=("TLC exhausts Streams (parent position, spawn counter, one child stream per task; histories of 3 calls x 3 tasks) for "
+              "NoStreamReuse and OneTaskPerChild. Each recorded scenario - a history of rejection / iterative / marginal calls on the "
+              "three paths, prior samples requested by count, prior.sample - is executed three times (seed s, seed s, seed s with "
+              "numpy's and Python's global generators seeded differently); the StreamsTrace monitor requires that no parent "
+              "bit-generator state is drawn from twice, that every child generator handed to a task derives from the given "
+              "generator's entropy with a spawn key never used before in this or any earlier call, that draws come only from the "
+              "parent or announced children, that global generator states are unchanged by every call, that no linear-parameter "
+              "draw vector repeats, and that outputs are bit-identical across the three runs; thorough adds schwimmbad.MultiPool."),
+        design_ref="DESIGN.md section 3 C10",
+        note=("Trusted: TLC; repr of the bit-generator state identifies a stream position; SHA-256 of returned arrays. A draw from a "
+              "foreign generator is visible only through non-reproducibility (runs A/B/G), not directly."),
+        technique="TLA+ spec (Streams) model-checked with TLC; trace validation of triple executions by total monitor",
+    ),
+    "C13": dict(
+        category="fault_enumeration",
+        text=("TLC exhausts SamplerFaults - the pipeline of each API call on each path with a failing twin for every action, then "
+              "Unwind and Raise - for NoLeak, UserFileIntact and InjectedAlwaysRaises, and enumerates the crash-point set. For every "
+              "configuration (marginal / rejection / iterative x object / file / in-memory x batching) a dry run under harness-side "
+              "boundary interposition yields the dynamic call sequence (NamedTemporaryFile, write, open_file, h5py.File, "
+              "batch_tasks, pool.map, each task, read_batch, kernel calls, generator draws, concatenate, pack/unpack); each call is "
+              "a crash point, injected in a re-run from the same generator state; the FaultsTrace monitor requires the injected "
+              "exception object at the caller, no new file in TMPDIR / tempfile_path, an unchanged SHA-256 of the user's file and a "
+              "correct follow-up call on the same TheJoker. A call kind with no model action is a spec gap (exit 2)."),
+        design_ref="DESIGN.md section 3 C13",
+        note=("Trusted: the interposed boundary covers the calls made inside the sampling functions; os.unlink in the finally clause and "
+              "NamedTemporaryFile's own close() are not crash points; worker-process crashes are exercised in the thorough tier only "
+              "through the pool wrapper."),
+        technique="TLA+ spec (SamplerFaults) model-checked with TLC to enumerate crash points; fault injection at every dynamic call; trace validation by total monitor",
+    ),
 }
 
 NOT_YET = "check not built yet (build in progress; see DESIGN.md section 7)"
